@@ -7,7 +7,8 @@ NOOP = {'kind': 'noop'}
 # unambiguous custom tables (each concept dereifies to exactly one role)
 CUSTOM_SPECS = [
     {
-        'roles': {':ARG[0-9]': {}, ':mod': {}, ':domain': {}, ':op[0-9]+': {}, ':part-of': {},
+        # (':snt\\d': a pattern whose only regular-expression syntax is a backslash escape)
+        'roles': {':ARG[0-9]': {}, ':mod': {}, ':domain': {}, ':op[0-9]+': {}, ':part-of': {}, ':snt\\d': {},
                   ':loc': {}, ':name': {}, ':quant': {}, ':polarity': {}},
         'normalizations': {':mod-of': ':domain', ':domain-of': ':mod'},
         'reifications': [[':mod', 'have-mod-91', ':ARG1', ':ARG2'],
@@ -101,7 +102,7 @@ def inventory(spec):
         return edge, attr
     s = spec['spec']
     if ':mod' in s['roles']:
-        edge = [':ARG0', ':ARG1', ':ARG2', ':mod', ':domain', ':op1', ':op2', ':part-of', ':loc']
+        edge = [':ARG0', ':ARG1', ':ARG2', ':mod', ':domain', ':op1', ':op2', ':part-of', ':loc', ':snt2']
         attr = [':name', ':quant', ':polarity', ':op1', ':mod']
     else:
         edge = [':Ra', ':Rb', ':Rc', ':x-of', ':rel', ':r\u00f4le']
